@@ -400,6 +400,7 @@ pub fn execute(reg: &PortableRegistry, sw: &Switches, ops: &[Op]) -> Obs {
         "DerivesRegistry::derives_on_specific_types".into(),
         b.derives
             .derives_on_specific_types()
+            .into_iter()
             .map(|(p, _)| crate::model::nospace(&crate::model::tokens_of(p)))
             .collect::<Vec<_>>()
             .join(","),
@@ -409,7 +410,7 @@ pub fn execute(reg: &PortableRegistry, sw: &Switches, ops: &[Op]) -> Obs {
         b.derives
             .default_derives()
             .derives()
-            .iter()
+            .into_iter()
             .map(|p| crate::model::nospace(&crate::model::tokens_of(p)))
             .collect::<Vec<_>>()
             .join(","),
